@@ -43,6 +43,7 @@ def main(tier):
     chk.run("R-ARRAYSEP", C.arraysep, cx.cpp, floor=3)
     chk.run("R-ALIASDEPS", DR.aliasdeps, r, floor=2)
     chk.run("R-FLOATTEXT", C.floattext, cx.repo, floor=3)
+    chk.run("R-SUBSTRSPAN", C.substrspan, cx.repo, floor=1)
     chk.run("R-TEXTPAIR", B.textpair, cx.repo, cx.templates, cx.cpp, floor=4)
     chk.run("R-ALIASATTR", SYN.aliasattr, cx.repo, clauses=("carry",), floor=3)
     chk.run("R-WSAGREE", C.wsagree, cx.cpp, floor=2)
